@@ -10,6 +10,7 @@ import (
 	"fmt"
 	"io"
 	"net"
+	"sync"
 
 	hclog "github.com/hashicorp/go-hclog"
 	"github.com/hashicorp/go-plugin/internal/grpcmux"
@@ -60,6 +61,11 @@ type GRPCServer struct {
 	server      *grpc.Server
 	broker      *GRPCBroker
 	stdioServer *grpcStdioServer
+
+	// brokerLock guards broker once the server is running: Stop and
+	// GracefulStop can be called concurrently (plugin shutdown RPC, Serve's
+	// context cancellation, run groups of brokered servers).
+	brokerLock sync.Mutex
 
 	logger hclog.Logger
 
@@ -117,6 +123,13 @@ func (s *GRPCServer) Init() error {
 // grpc.Broker if present.
 func (s *GRPCServer) Stop() {
 	s.server.Stop()
+	s.closeBroker()
+}
+
+// closeBroker closes the broker, if there still is one, exactly once.
+func (s *GRPCServer) closeBroker() {
+	s.brokerLock.Lock()
+	defer s.brokerLock.Unlock()
 
 	if s.broker != nil {
 		s.broker.Close()
@@ -128,11 +141,7 @@ func (s *GRPCServer) Stop() {
 // the underlying grpc.Broker if present.
 func (s *GRPCServer) GracefulStop() {
 	s.server.GracefulStop()
-
-	if s.broker != nil {
-		s.broker.Close()
-		s.broker = nil
-	}
+	s.closeBroker()
 }
 
 // Config is the GRPCServerConfig encoded as JSON then base64.
